@@ -19,12 +19,23 @@ variable {R : Type} [Add R] [Sub R] [Mul R] [Div R] [Neg R] [Lit R] [LT R] [Deci
 
 /-! ### the getters -/
 
-/-- the sum `compute_volume` accumulates (six times the signed volume) -/
-def volSum (pos : Nat → V3 R) (T : List Tri) : R := T.foldl (volStep pos) volInit
+/-- `cell::get_volume_reference_point`: the loop returns at the first used face (every face of `T` is used),
+    and falls through to the default when there is none -/
+def refPoint (pos : Nat → V3 R) (T : List Tri) : V3 R :=
+  (T.head?.map (volRefOfFace pos)).getD volRefDefault
+
+/-- the loop of `compute_volume` with the coordinates taken relative to `o` -/
+def volSumAt (pos : Nat → V3 R) (o : V3 R) (T : List Tri) : R := T.foldl (volStep pos o) volInit
+/-- the sum `compute_volume` accumulates (six times the signed volume):
+    `const vec3 origin = get_volume_reference_point();` then the loop -/
+def volSum (pos : Nat → V3 R) (T : List Tri) : R := volSumAt pos (volOrigin (refPoint pos T)) T
 /-- `cell::compute_volume` -/
 def volume (pos : Nat → V3 R) (T : List Tri) : R := volFinish (volSum pos T)
-/-- the sum `check_face_normal_orientation` accumulates -/
-def svSum (pos : Nat → V3 R) (T : List Tri) : R := T.foldl (svStep pos) svInit
+/-- the loop of `check_face_normal_orientation` with the coordinates taken relative to `o` -/
+def svSumAt (pos : Nat → V3 R) (o : V3 R) (T : List Tri) : R := T.foldl (svStep pos o) svInit
+/-- the sum `check_face_normal_orientation` accumulates (`const vec3 origin = get_volume_reference_point();` is
+    evaluated after the flood fill, which never rewinds the seed = first used face) -/
+def svSum (pos : Nat → V3 R) (T : List Tri) : R := svSumAt pos (svOrigin (refPoint pos T)) T
 
 /-- `face::get_area()` after `update_face_normal_and_area` -/
 def faceArea (fn : Fn R) (pos : Nat → V3 R) (t : Tri) : R := (faceNormalArea fn pos t).1
